@@ -34,6 +34,10 @@ def reset_process_state(overrides: dict | None = None):
         pyfftw.forget_wisdom()
     except ImportError:
         pass
+    if cfg.config_lock.locked():
+        # an injected crash that lands on the line event CPython attributes to leaving a `with lock:` block skips the
+        # release (the same window an asynchronous KeyboardInterrupt has); never let that leak into the next run
+        cfg.config_lock.release()
     base = pristine_config()
     cfg.config.clear()
     cfg.config.update(base)
